@@ -345,11 +345,11 @@ func (e *Exec) applyContract(s *State, ins ssa.Instruction, fc *FuncContract, si
 				if obj, ok := args[0].(*Node); ok {
 					e.havocGuarded(s, mon, pt.Elem(), obj)
 					for _, inv := range mon.Invariants {
-						s.assume(e.evalMonitorInv(mon, inv, pt.Elem(), obj, s))
+						s.assume(e.asHyp(func() *Node { return e.evalMonitorInv(mon, inv, pt.Elem(), obj, s) }))
 					}
 					defer func() {
 						for _, inv := range mon.Invariants {
-							s.assume(e.evalMonitorInv(mon, inv, pt.Elem(), obj, s))
+							s.assume(e.asHyp(func() *Node { return e.evalMonitorInv(mon, inv, pt.Elem(), obj, s) }))
 						}
 					}()
 				}
@@ -411,7 +411,7 @@ func (e *Exec) applyContract(s *State, ins ssa.Instruction, fc *FuncContract, si
 					panic(unsupportedErr{"postcondition of " + cname + ": " + msg})
 				}
 			}()
-			s.assume(sub.evalWith(e, en, s, pre, vars))
+			s.assume(e.asHyp(func() *Node { return sub.evalWith(e, en, s, pre, vars) }))
 		}()
 	}
 	return packResults(res)
@@ -425,7 +425,7 @@ func (e *Exec) calleeCtxExec(fc *FuncContract) calleeCtx {
 }
 
 func (cc calleeCtx) evalWith(e *Exec, c *Clause, st, old *State, vars map[string]specVar) *Node {
-	ctx := &SpecCtx{e: e, st: st, old: old, vars: map[string]specVar{}, pkg: cc.pkg}
+	ctx := &SpecCtx{e: e, st: st, old: old, vars: map[string]specVar{}, pkg: cc.pkg, hyp: e.hypMode}
 	for k, v := range vars {
 		ctx.vars[k] = v
 	}
@@ -469,7 +469,7 @@ func (e *Exec) havocTarget(s, pre *State, m string, vars map[string]specVar, fc 
 			na := TS.Fresh("mod_"+name, asort)
 			oldA := Select(h, sl.Ref)
 			i := BoundVar("i!m", e.mode.idxSort())
-			s.assume(Forall([]*Node{i}, Implies(Or(e.ilt(i, sl.Off), e.ile(e.iadd(sl.Off, sl.Len), i)), Eq(Select(na, i), Select(oldA, i)))))
+			s.assume(e.hypForall(i, Implies(Or(e.ilt(i, sl.Off), e.ile(e.iadd(sl.Off, sl.Len), i)), Eq(Select(na, i), Select(oldA, i)))))
 			e.setHeap(s, name, Store(h, sl.Ref, na), sl.Ref)
 		}
 	default:
@@ -657,7 +657,7 @@ func (e *Exec) copyBuiltin(s *State, c *ssa.CallCommon, args []Value) Value {
 		na := TS.Fresh("copy_"+name, asort)
 		i := BoundVar("i!c", e.mode.idxSort())
 		inWin := And(e.ile(dst.Off, i), e.ilt(i, e.iadd(dst.Off, n)))
-		s.assume(Forall([]*Node{i}, Eq(Select(na, i), Ite(inWin, srcAt(li, e.isub(i, dst.Off)), Select(oldA, i)))))
+		s.assume(e.hypForall(i, Eq(Select(na, i), Ite(inWin, srcAt(li, e.isub(i, dst.Off)), Select(oldA, i)))))
 		upds = append(upds, upd{name, na, h})
 	}
 	for _, u := range upds {
@@ -692,6 +692,16 @@ func (e *Exec) appendBuiltin(s *State, ins ssa.Instruction, c *ssa.CallCommon, a
 	fresh := e.newRef(s)
 	newCap := e.freshValue(s, "appendcap", types.Typ[types.Int]).(*Node)
 	s.assume(And(e.ile(newLen, newCap), e.ile(newCap, e.idxBig(maxLen))))
+	if e.mode == ModeInt {
+		// Go's growth policy never more than doubles (plus size-class rounding): trusted runtime fact
+		s.assume(App("<=", "Bool", newCap, App("+", "Int", App("*", "Int", IntLit(2), newLen), IntLit(64))))
+		e.v.noteTrusted("runtime: append grows a slice to at most 2*len+64 elements")
+		if e.fc != nil && e.fc.AllocBound != nil {
+			grow := s.clone()
+			grow.assume(Not(fits))
+			e.allocSite(grow, ins, newCap, et)
+		}
+	}
 	resRef := Ite(fits, sl.Ref, fresh)
 	resOff := Ite(fits, sl.Off, e.idx(0))
 	resCap := Ite(fits, sl.Cap, newCap)
@@ -705,13 +715,13 @@ func (e *Exec) appendBuiltin(s *State, ins ssa.Instruction, c *ssa.CallCommon, a
 		i := BoundVar("i!a", e.mode.idxSort())
 		base := e.iadd(sl.Off, sl.Len)
 		inNew := And(e.ile(base, i), e.ilt(i, e.iadd(base, addLen)))
-		s.assume(Forall([]*Node{i}, Eq(Select(na, i), Ite(inNew, addAt(li, e.isub(i, base)), Select(oldA, i)))))
+		s.assume(e.hypForall(i, Eq(Select(na, i), Ite(inNew, addAt(li, e.isub(i, base)), Select(oldA, i)))))
 		// fresh: copy of old window followed by new elements
 		nf := TS.Fresh("appf_"+name, asort)
 		j := BoundVar("j!a", e.mode.idxSort())
 		inOld := And(e.ile(e.idx(0), j), e.ilt(j, sl.Len))
 		inAdd := And(e.ile(sl.Len, j), e.ilt(j, newLen))
-		s.assume(Forall([]*Node{j}, And(
+		s.assume(e.hypForall(j, And(
 			Implies(inOld, Eq(Select(nf, j), Select(oldA, e.iadd(sl.Off, j)))),
 			Implies(inAdd, Eq(Select(nf, j), addAt(li, e.isub(j, sl.Len)))))))
 		h2 := Ite(fits, Store(h, sl.Ref, na), Store(h, fresh, nf))
